@@ -1,6 +1,114 @@
-"""Whole-program part of C18 (placeholder until the C17 program list exists)."""
+"""Whole-program part of C18: the program list of C17 (hand-written, random,
+distributed per rank), each built in every process of the pool, with
+single-node changes found by a reflective walk (ptverif/keyprog.py)."""
 from __future__ import annotations
 
+import json
+from concurrent.futures import ThreadPoolExecutor
+from typing import Any
 
-def program_records(seeds, T, only):
-    return []
+from ptverif.common import MachineryError
+from ptverif.procpool import Pool
+
+
+def program_list(tier: str) -> list[dict]:
+    from checks import c17
+    progs, _ = c17.programs("quick")
+    out = []
+    ndist = 0
+    for p in progs:
+        if p["kind"] == "dist":
+            ndist += 1
+            if tier != "thorough" and ndist > 40:
+                continue
+            for r in range(min(2, p["prog"]["nranks"])):
+                out.append({**p, "id": f"{p['id']}@r{r}", "rank": r})
+        elif p["id"] != "hand/calls_stay":
+            out.append(p)
+    return out
+
+
+def program_records(seeds: list[int], T: dict, only: dict | None, tier: str = "quick"
+                    ) -> list[dict]:
+    progs = program_list(tier)
+    if only is not None:
+        progs = [p for p in progs if p["id"] in only.get("ctx", [])]
+    per_seed = T["per_seed"]
+    parts = [progs[i::per_seed] for i in range(per_seed)]
+    with Pool(seeds, per_seed) as pool:
+        widx = {(s, k): pool.workers[i * per_seed + k]
+                for i, s in enumerate(seeds) for k in range(per_seed)}
+        keys = list(widx)
+
+        def phase1(key: tuple) -> dict:
+            return widx[key].call("keyprog.pickles", programs=parts[key[1]])
+        with ThreadPoolExecutor(max_workers=len(keys)) as ex:
+            blobs = dict(zip(keys, ex.map(phase1, keys)))
+
+        def phase2(key: tuple) -> list[dict]:
+            s, k = key
+            prev = seeds[(seeds.index(s) - 1) % len(seeds)]
+            return widx[key].call("keyprog.progfams", programs=parts[k],
+                                  nmut=T["prog_mut"], xblobs=blobs[(prev, k)])
+        with ThreadPoolExecutor(max_workers=len(keys)) as ex:
+            res = dict(zip(keys, ex.map(phase2, keys)))
+    fams: dict[str, dict[int, dict]] = {}
+    for (s, _k), lst in res.items():
+        for r in lst:
+            fams.setdefault(r["fam"], {})[s] = r
+    records = []
+    for fid in sorted(fams):
+        by_export: dict[str, dict] = {}
+        for s in seeds:
+            r = fams[fid][s]
+            sig = json.dumps([r["nodes"], r["roots"], r["names"]], sort_keys=True)
+            rec = by_export.get(sig)
+            if rec is None:
+                rec = {"id": fid if not by_export else f"{fid}#{len(by_export)}",
+                       "rel": "keys", "kind": "program", "ctx": r["ctx"],
+                       "names": r["names"], "nodes": r["nodes"], "roots": r["roots"],
+                       "canonM": r["canonM"], "strictM": r["strictM"], "known": r["known"],
+                       "obs": [], "seeds": [], "errors": []}
+                by_export[sig] = rec
+            rec["errors"] += [x for x in r["key"] + r["pkey"] if x.startswith("error")][:2]
+            if r["key_base_first"] != r["key"][0]:
+                raise MachineryError(f"{fid}: the key of the base changed within a process")
+            rec["obs"].append({"key": ["error" if x.startswith("error") else x
+                                       for x in r["key"]],
+                               "pkey": ["error" if x.startswith("error") else x
+                                        for x in r["pkey"]]})
+            rec["seeds"].append(s)
+        records += list(by_export.values())
+    return records
+
+
+def report(run: Any, per_family: dict[str, tuple[dict, dict]]) -> None:
+    """Program-level failures get the signature of the node kind and change
+    that was made, so that they coincide with the family-level finding."""
+    import re
+    found: dict[str, dict] = {}
+    for fid, (rec, fails) in sorted(per_family.items()):
+        for (clause, member), info in sorted(fails.items()):
+            m = re.fullmatch(r"mut:(\w+)\.([\w:]+)#\d+", member)
+            if m:
+                kind, what = m.group(1), m.group(2)
+                lk = "member" if what.startswith("data:") else "field"
+                key = f"{kind}.{what}/{clause}"
+                sig = {"kind": kind, lk: what, "clause": clause}
+            else:
+                key = f"{fid}.{member}/{clause}"
+                sig = {"kind": "program", "member": member, "clause": clause,
+                       "prog": rec["ctx"][0]}
+            f = found.setdefault(key, {"sig": sig, "n": 0, "progs": [], "pairs": info["pairs"],
+                                       "seeds": set()})
+            f["n"] += info["n"]
+            f["progs"].append(rec["ctx"][0])
+            f["seeds"] |= info["seeds"]
+    for key, f in sorted(found.items()):
+        run.violation(key,
+                      f"{f['sig']['clause']} fails in whole programs for {key}: {f['n']} "
+                      f"failing key comparisons in {len(f['progs'])} programs "
+                      f"{f['progs'][:5]}, seeds {sorted(f['seeds'])}; e.g. {f['pairs'][:3]}",
+                      record={"check": "programs", "kind": "program",
+                              "ctx": [f["progs"][0]], "pairs": f["pairs"]},
+                      observed=f["pairs"], sig=f["sig"])
